@@ -1,6 +1,7 @@
 // C14: Clear Hash makes the next search identical to a fresh start (refinement against a fresh engine).
 // One run = three engine processes: B (fresh engine: same option history + probe), A2 (same history under
 // another schedule/clock) and A (history, Clear Hash, probe). Their probe transcripts must be identical.
+#include <cstring>
 #include "common.hpp"
 #include "session.hpp"
 #include "uci_oracle.hpp"
@@ -200,7 +201,12 @@ void genC14(uint64_t seed, int tier, Scenario& sc) {
     pg::GenPos probe, gp;
     pg::randomGame(r, (int)r.range(4, 70), r.chance(0.3), probe);
     // options kept for the probe (same in A and B because B replays every setoption of A)
-    if (r.chance(0.6)) pushSend(sc, "setoption name Hash value " + std::to_string(r.chance(0.5) ? 1 : r.range(1, 32)));
+    // "big table" runs: a table above 16 MB takes the multi-threaded branch of TranspositionTable::clear(); the same
+    // value is re-asserted before the probe, so the table is NOT reallocated and Clear Hash alone must empty it (M7-C14)
+    bool bigTable = r.chance(0.3);
+    long long bigMB = r.range(17, 48);
+    if (bigTable) pushSend(sc, "setoption name Hash value " + std::to_string(bigMB));
+    else if (r.chance(0.6)) pushSend(sc, "setoption name Hash value " + std::to_string(r.chance(0.5) ? 1 : r.range(1, 32)));
     if (r.chance(0.3)) pushSend(sc, "setoption name Contempt value " + std::to_string(r.range(-200, 200)));
     if (r.chance(0.2)) pushSend(sc, "setoption name MultiPV value " + std::to_string(r.range(1, 3)));
     if (r.chance(0.2)) pushSend(sc, "setoption name UseNullMove value false");
@@ -214,6 +220,7 @@ void genC14(uint64_t seed, int tier, Scenario& sc) {
             static const char* opts[][3] = {{"Contempt", "-200", "200"}, {"MultiPV", "1", "4"}, {"Threads", "1", "3"}, {"Hash", "1", "16"},
                                             {"AnalyzeContempt", "-100", "100"}, {"MinProbeDepth", "0", "10"}};
             const char** o = opts[r.below(6)];
+            if (bigTable && !strcmp(o[0], "Hash")) o = opts[0]; // keep the big table allocated
             pushSend(sc, std::string("setoption name ") + o[0] + " value " + std::to_string(r.range(atoll(o[1]), atoll(o[2]))));
         }
         if (k >= 25 && k < 30) pushSend(sc, std::string("setoption name UCI_AnalyseMode value ") + (r.chance(0.5) ? "true" : "false"));
@@ -269,7 +276,7 @@ void genC14(uint64_t seed, int tier, Scenario& sc) {
     pushSend(sc, "setoption name Contempt value " + std::to_string(r.chance(0.6) ? 0 : r.range(-200, 200)));
     pushSend(sc, "setoption name AnalyzeContempt value 0");
     pushSend(sc, "setoption name MultiPV value " + std::to_string(r.chance(0.8) ? 1 : r.range(2, 3)));
-    pushSend(sc, "setoption name Hash value " + std::to_string(r.chance(0.5) ? 1 : r.range(1, 16)));
+    { long long h = r.chance(0.5) ? 1 : r.range(1, 16); pushSend(sc, "setoption name Hash value " + std::to_string(bigTable ? bigMB : h)); }
     sc.ops.push_back("mark probe");
     pushSend(sc, "setoption name Clear Hash");
     pushSend(sc, "isready");
